@@ -594,12 +594,9 @@ func runEqualPairs(ctx *core.Ctx, id string, legacy bool, vs []*rj.Value, withVa
 			if withVariants && want {
 				bvs = variantsEsc(b, !legacy)
 			}
-			for k, at := range avs {
-				for l, bt := range bvs {
-					if k > 0 && l > 0 && k != l {
-						continue
-					}
-					r := m.Equal(at, bt)
+			for _, at := range avs {
+				for _, bt := range bvs {
+					r := m.Equal(at, bt) // every spelling against every spelling
 					atomic.AddInt64(n, 1)
 					if r.Panic != "" {
 						m.viol("equal-panics", panicKey(r), fmt.Sprintf("Equal(%s, %s) panics: %s", at, bt, r.Panic), "Equal", at, bt)
